@@ -226,7 +226,7 @@ check("C11", "concurrent requests never lose or tear updates", "exploration",
       "established. A second 202 for a delete that raced past the same existence check is accepted; while finding C11/artifact-put-not-atomic is open an artifact push is modelled as two atomic steps, "
       "and while C11/session-patch-not-atomic is open the harness admits one PATCH per session at a time.",
       "DESIGN.md §3 C11",
-      [R("^TestC11$", 8000, 60000, shards=(8, 16)), R("^TestC11Upload$", 12000, 80000, shards=(8, 16))])
+      [R("^TestC11$", 8000, 60000, shards=(8, 16)), R("^TestC11Upload$", 12000, 80000, shards=(8, 16)), R("^TestC11Interleave$", 1600, 40000, shards=(8, 16), variant="vfs")])
 
 check("C13", "concurrent use of one server is free of data races", "exploration",
       "rapid generator of concurrent programs with background ticker/timers on a -race build; oracle = Go race detector (reports parsed into signatures by the driver)",
@@ -689,7 +689,11 @@ def cmd_check(pid, tier):
                     if not rep:
                         continue
                     run = R("^%s$" % rep, 1, 1, shards=(1, 1), norapid=True, timeout=(300, 300))
-                    results = run_shards(binp, work, pid, tier, run, seed, [s for s in open_sigs if s != k["signature"]], c["variant"])
+                    kv = k.get("variant") or c["variant"]  # a reproducer that needs an owned schedule names its build variant
+                    if kv not in bins:
+                        w2 = work + "-" + kv
+                        bins[kv] = (prepare(w2, kv), w2)
+                    results = run_shards(bins[kv][0], bins[kv][1], pid, tier, run, seed, [s for s in open_sigs if s != k["signature"]], kv)
                     _, fails = collect(results)
                     if any(f.get("signature") == k["signature"] for f in fails):
                         kf_lines.append("KNOWN-FINDING: property=%s %s [%s]" % (pid, k["what"], k["signature"]))
